@@ -80,7 +80,12 @@ func (gn *graphNode) getGenericHelper() *genericHelper {
 		return nil
 	}
 
-	if gn.nodeInfo != nil {
+	if gn.nodeInfo != nil && (len(gn.nodeInfo.inputKey) > 0 || len(gn.nodeInfo.outputKey) > 0) {
+		if ret == nil {
+			// a pass-through node whose own type has not been inferred yet: the keyed side is map[string]any whatever
+			// that type turns out to be; until then the other side is typed any
+			ret = newGenericHelper[any, any]()
+		}
 		if len(gn.nodeInfo.inputKey) > 0 {
 			ret = ret.forMapInput()
 		}
